@@ -545,6 +545,25 @@ def narrowing_sites(ctx, bodies):
     return out
 
 
+def carried_keys(ls):
+    """carried places of a loop that actually change: unit accumulators of for_each / fold-to-() and other identity-carried
+    places (next is the loop-head value itself) are bookkeeping of the iterator form, not state"""
+    return [k for k in ls.lh if not (isinstance(ls.next.get(k), T.Tm) and ls.next[k] is ls.lh[k])]
+
+
+def collected(ls):
+    """sequences a loop builds, one element per iteration, whichever way it is written:
+    [(sequence term after the loop, element term of one iteration)] -- `for` + push into an empty Vec, or map(..).collect()"""
+    out = []
+    if ls.kind == 'forced' and getattr(ls, 'result_term', None) is not None:
+        out.append((T.app('eff', mk_comp(ls.n, ls.var, ls.result_term), T.sym('loop%d' % ls.uid)), ls.result_term))
+    for k in ls.lh:
+        nx = ls.next.get(k)
+        if T.is_app(nx, 'push') and nx[2][0] is ls.lh[k] and ls.init.get(k) is T.app('array'):
+            out.append((ls.lx[k], nx[2][1]))
+    return out
+
+
 def reachable_bodies(ctx, roots):
     """hand-written crate-local bodies reachable from `roots` through resolved calls (closures included with their parents)"""
     seen, order, stack = set(), [], [b for b in roots if b is not None]
